@@ -346,6 +346,51 @@ def run_loss(case, ctx):
         ctx.nontrivial({"a": algo, "o": spec.get("obs"), "d": dones, "g": g})
 
 
+def run_stale(case, ctx):
+    """The update a learn step computes is a function of (weights, optimizer state, counters, batch) only: an agent that has just
+    taken k consecutive learn steps and its faithful clone (same weights / optimizer state / counters, but no left-over
+    gradients or other hidden per-object state) must compute the same loss and the same new weights from the same batch."""
+    spec = case["spec"]
+    algo = spec["algo"]
+    hp = dict(spec.get("hp", {}), tau=TAUS[case["tau"]])
+    if algo in DELAYED:
+        hp["policy_freq"] = case["policy_freq"]
+    spec = dict(spec, hp=hp)
+    site = f"C08/hidden_state/{algo}"
+    try:
+        A = ag.build(spec, hp_config=ag.make_hp_config(algo))
+        for i in range(case["k"]):
+            batch = make_batch(A, spec, A.batch_size, case["bseed"] + i, None)
+            do_learn(A, spec, batch, case["lseed"] + i)
+        B = A.clone()
+    except Exception as e:
+        ctx.label(f"setup-failed:{type(e).__name__}")
+        return
+    if T.diff(T.snapshot(A), T.snapshot(B), sections=("tensors", "opts", "arch")):
+        ctx.label("clone-differs-skip")  # e.g. a learner that re-synchronises its target on copy (C01's allowance)
+        return
+    batch = make_batch(A, spec, A.batch_size, case["bseed"] + 100, None)
+    with ctx.promised(site + "/learn"):
+        la = do_learn(A, spec, batch, case["lseed"] + 100)
+        lb = do_learn(B, spec, batch, case["lseed"] + 100)
+    if algo == "Rainbow":
+        same = abs(float(la[0]) - float(lb[0])) <= 1e-6 * max(1.0, abs(float(la[0])))
+    else:
+        same = repr(_round(la)) == repr(_round(lb))
+    ctx.check(same, f"{site}/loss_depends_on_left_over_state",
+              "an agent that just learned and its faithful clone return different losses for the same batch", a=repr(la)[:200], b=repr(lb)[:200],
+              k=case["k"])
+    d = T.diff(T.snapshot(A), T.snapshot(B), sections=("tensors",))
+    if d:
+        ctx.fail(f"{site}/update_depends_on_left_over_state", "an agent that just took k learn steps and its faithful clone compute "
+                 f"different updates from the same batch (e.g. gradients left over from the previous step): {d[0]}", k=case["k"],
+                 policy_freq=case["policy_freq"], diffs=d[:4])
+    ctx.label(f"algo={algo}")
+    ctx.label(f"k={case['k']}")
+    if case["k"] >= 2:
+        ctx.nontrivial({"a": algo, "o": spec.get("obs"), "k": case["k"], "pf": case["policy_freq"]})
+
+
 # ----------------------------------------------------------------------------
 
 @st.composite
@@ -393,6 +438,13 @@ def loss_strategy(draw, tier):
             "pseed": draw(st.integers(0, 999)), "bseed": draw(st.integers(0, 999)), "lseed": draw(st.integers(0, 999))}
 
 
+@st.composite
+def stale_strategy(draw, tier):
+    return {"spec": draw(spec_strategy(["CQN", "Rainbow", "DDPG", "TD3", "MADDPG", "MATD3", "DDPG", "TD3"])), "k": draw(st.integers(1, 5)),
+            "tau": draw(st.integers(0, 3)), "policy_freq": draw(st.integers(1, 3)),
+            "bseed": draw(st.integers(0, 999)), "lseed": draw(st.integers(0, 999))}
+
+
 PROPERTY = Property(
     id="C08",
     level="exploration",
@@ -408,6 +460,9 @@ PROPERTY = Property(
                    shrink_budget={"quick": 60, "thorough": 300}),
         Obligation("soft_update_law", run_soft_update, strategy=soft_strategy,
                    examples={"quick": 35, "thorough": 400}, shards={"quick": 6, "thorough": 16},
+                   shrink_budget={"quick": 60, "thorough": 300}),
+        Obligation("no_hidden_state", run_stale, strategy=stale_strategy,
+                   examples={"quick": 30, "thorough": 300}, shards={"quick": 4, "thorough": 16},
                    shrink_budget={"quick": 60, "thorough": 300}),
         Obligation("loss_differential", run_loss, strategy=loss_strategy,
                    examples={"quick": 50, "thorough": 500}, shards={"quick": 4, "thorough": 16},
